@@ -30,7 +30,7 @@ None == [k |-> "none"]
 Mods == {None, [k |-> "head", p |-> 0], [k |-> "tail", p |-> 0], [k |-> "hh", p |-> 0, q |-> 2], [k |-> "ht", p |-> 1, q |-> -1],
          [k |-> "tt", p |-> -2, q |-> 0], [k |-> "head", p |-> 1]}
 Specs == {[k |-> "sel", key |-> k] : k \in {"gene", "CDS", "misc_feature", "source", "nomatch"}}
-         \cup {[k |-> "loc", t |-> Pt(3)], [k |-> "loc", t |-> Rg(2, 6, FALSE, FALSE)], [k |-> "loc", t |-> Cp(Rg(2, 6, FALSE, FALSE))], [k |-> "all"]}
+         \cup {[k |-> "loc", t |-> Pt(3)], [k |-> "loc", t |-> Rg(2, 6, FALSE, FALSE)], [k |-> "loc", t |-> Cp(Rg(2, 6, FALSE, FALSE))], [k |-> "loc", t |-> Cp(Pt(4))], [k |-> "all"]}
 Locators == ({[x |-> x, m |-> m] : x \in Specs, m \in Mods} \ {[x |-> [k |-> "all"], m |-> None]})
             \cup {[x |-> [k |-> "mod", m |-> m], m |-> None] : m \in {[k |-> "head", p |-> 3], [k |-> "hh", p |-> 2, q |-> 5], [k |-> "ht", p |-> 2, q |-> -2], [k |-> "tail", p |-> -1]}}
 Cmds == { <<"delete", <<>>>>, <<"delete", <<"-e">>>>, <<"insert", <<>>>>, <<"insert", <<"-e">>>>, <<"split", <<>>>>, <<"rotate", <<>>>>,
